@@ -41,7 +41,6 @@ Proof.
 Qed.
 
 Definition key_le (a b : entry) : Prop := key_leb (fst a) (fst b) = true.
-Definition key_lt (a b : entry) : Prop := key_cmp (fst a) (fst b) = Lt.
 
 Lemma key_leb_total : forall a b, key_leb a b = false -> key_leb b a = true.
 Proof.
@@ -224,9 +223,6 @@ Proof.
 Qed.
 
 (** ---------- the metadata loop ---------- *)
-Definition meta_ok (meta : list (bytes * mval)) : Prop :=
-  Forall (fun e => meta_entry_ok e = true) meta.
-
 Lemma meta_entry_ok_inv : forall k v, meta_entry_ok (k, v) = true ->
   (blen k =? 0) = false /\ existsb (bytes_eqb k) reserved_keys = false /\
   exists n, any_to_node v = NOk n /\ node_of v = Some n.
@@ -320,14 +316,7 @@ Section RoundTrip.
 
   Notation new_record := (new_record sk pk pub sign marshal_pk fmt_time).
 
-  (** inputs the property quantifies over *)
-  Definition inputs_ok (i : inputs) : Prop :=
-    0 <= i_seq i < two64 /\
-    - two63 <= i_ttl i < two63 /\
-    parse_time (fmt_time (i_eol i)) = Some (i_eol i) /\
-    meta_ok (i_meta i) /\
-    NoDup (map fst (i_meta i)) /\
-    (forall k n, In (k, MInt n) (i_meta i) -> - two63 <= n < two63).
+  Notation inputs_ok := (M_C26.inputs_ok fmt_time parse_time).
 
   Lemma created : forall s i, meta_ok (i_meta i) -> exists rec, new_record s i = NOk rec.
   Proof.
@@ -470,19 +459,30 @@ Section RoundTrip.
       destruct (Z.eqb_spec (blen (enc_map (r_node rec))) 0); [lia|].
       rewrite dec_map_enc_map by assumption.
       destruct rec; reflexivity.
-    - unfold wf_pb.
-      repeat (split; [first [apply (Holen 1) | apply (Holen 2) | apply (Holen 4) | apply (Holen 7)
-                            | apply (Holen 8) | apply (Holen 9)]; cbn; auto 10|]).
+    - pose proof (Holen 1 (p_value (r_pb rec)) ltac:(cbn; auto 10)) as L1.
+      pose proof (Holen 2 (p_sigv1 (r_pb rec)) ltac:(cbn; auto 10)) as L2.
+      pose proof (Holen 4 (p_validity (r_pb rec)) ltac:(cbn; auto 10)) as L4.
+      pose proof (Holen 7 (p_pubkey (r_pb rec)) ltac:(cbn; auto 10)) as L7.
+      pose proof (Holen 8 (p_sigv2 (r_pb rec)) ltac:(cbn; auto 10)) as L8.
+      pose proof (Holen 9 (p_data (r_pb rec)) ltac:(cbn; auto 10)) as L9.
+      unfold wf_pb.
+      do 6 (split; [assumption|]).
       destruct (i_v1 i); destruct Hv1 as (E1 & E2 & E3 & E4 & E5 & E6); rewrite E2, E4, E5.
-      + repeat split; try exact Hunk; intros v Hv; injection Hv as <-;
+      + split; [|split; [|split; [|exact Hunk]]]; intros x Hx; injection Hx as <-;
           unfold two31, two63, two64 in *; lia.
-      + repeat split; try exact Hunk; intros v Hv; discriminate.
+      + split; [|split; [|split; [|exact Hunk]]]; intros x Hx; discriminate.
   Qed.
 
   (** C26_roundtrip, part 2: the accessors return the inputs *)
   Theorem accessors_created : forall s i rec,
     inputs_ok i -> new_record s i = NOk rec ->
-    acc_value rec = Some (i_value i) /    acc_sequence rec = Some (i_seq i) /    acc_validity parse_time rec = Ok (i_eol i) /    acc_ttl rec = Some (Z.max 0 (i_ttl i)) /    (forall k v, In (k, v) (i_meta i) -> acc_metadata k rec = node_of v) /    (forall k, In k reserved_keys -> acc_metadata k rec = None) /    (forall k, ~ In k (map fst (i_meta i)) -> acc_metadata k rec = None).
+    acc_value rec = Some (i_value i) /\
+    acc_sequence rec = Some (i_seq i) /\
+    acc_validity parse_time rec = Ok (i_eol i) /\
+    acc_ttl rec = Some (Z.max 0 (i_ttl i)) /\
+    (forall k v, In (k, v) (i_meta i) -> acc_metadata k rec = node_of v) /\
+    (forall k, In k reserved_keys -> acc_metadata k rec = None) /\
+    (forall k, ~ In k (map fst (i_meta i)) -> acc_metadata k rec = None).
   Proof.
     intros s i rec Hok Hnew.
     destruct (new_record_shape s i rec Hnew) as (ms & Hms & Hnode & _).
@@ -517,4 +517,146 @@ Section RoundTrip.
         destruct Hr as [<-|[<-|[<-|[<-|[<-|[]]]]]]; cbn; auto 10.
       + apply Hk. subst k. apply in_map_iff. exists (fst e, v). split; [reflexivity | exact Hv].
   Qed.
+
+  Notation validate := (Ipns.validate pk verify parse_time).
+  Notation extract_pk := (Ipns.extract_pk pk parse_pk marshal_pk sha256).
+  Notation pid_of := (Ipns.pid_of pk marshal_pk sha256).
+  Notation validate_with_name := (Ipns.validate_with_name pk parse_pk marshal_pk verify sha256 parse_time).
+  Notation validator_validate := (Ipns.validator_validate pk parse_pk marshal_pk verify sha256 parse_time).
+
+  Lemma created_lookups : forall s i rec, inputs_ok i -> new_record s i = NOk rec ->
+    lookup kValue (r_node rec) = Some (CBytes (i_value i)) /\
+    lookup kValidity (r_node rec) = Some (CBytes (fmt_time (i_eol i))) /\
+    lookup kValidityType (r_node rec) = Some (CInt 0) /\
+    lookup kSequence (r_node rec) = Some (CInt (to_i64 (i_seq i))) /\
+    lookup kTTL (r_node rec) = Some (CInt (Z.max 0 (i_ttl i))).
+  Proof.
+    intros s i rec Hok Hnew.
+    destruct (new_record_shape s i rec Hnew) as (ms & Hms & Hnode & _).
+    destruct (node_facts i ms Hok Hms) as (Hnd & _ & Hres & _).
+    rewrite <- Hnode in Hnd, Hres.
+    repeat split; (apply lookup_in; [exact Hnd | apply Hres; cbn; auto 10]).
+  Qed.
+
+  Lemma name_eqb_refl : forall n, name_eqb n n = true.
+  Proof. intros [d|h]; cbn; apply bytes_eqb_refl. Qed.
+
+  Lemma olen_nonempty : forall b, b <> [] -> (olen (Some b) =? 0) = false.
+  Proof.
+    intros b H. unfold olen, oget. destruct b; [congruence|].
+    rewrite blen_cons. pose proof (blen_nonneg b). apply Z.eqb_neq. lia.
+  Qed.
+
+  (** C26_validates, part 1: Validate(rec, pk) accepts a created record up to its expiry *)
+  Theorem validate_created : forall s i rec now,
+    inputs_ok i -> new_record s i = NOk rec ->
+    pb_size (r_pb rec) <= max_record_size -> now <= i_eol i ->
+    validate now rec (pub s) = Ok tt.
+  Proof.
+    intros s i rec now Hok Hnew Hsize Hnow.
+    destruct (created_lookups s i rec Hok Hnew) as (Lv & Lvl & Lvt & Ls & Lt).
+    destruct (new_record_shape s i rec Hnew) as (ms & Hms & Hnode & Hdata & Hs2 & Hunk & Hpk & Hv1).
+    destruct Hok as (Hseq & Httl & Htime & _).
+    unfold Ipns.validate.
+    assert (Hsz : (max_record_size <? pb_size (r_pb rec)) = false) by (apply Z.ltb_ge; exact Hsize).
+    rewrite Hsz, Hs2, Hdata.
+    rewrite olen_nonempty by apply sign_nonempty.
+    assert (Hd : (olen (Some (enc_map (r_node rec))) =? 0) = false).
+    { unfold olen, oget. pose proof (enc_map_nonempty (r_node rec)). apply Z.eqb_neq. lia. }
+    rewrite Hd. cbn [oget]. rewrite sign_correct. cbn [negb].
+    assert (Hmax : 0 <= Z.max 0 (i_ttl i) < two64) by (unfold two63, two64 in *; lia).
+    assert (Hmatch : ((negb (olen (p_sigv1 (r_pb rec)) =? 0) || negb (olen (p_value (r_pb rec)) =? 0)) &&
+                      negb (match_pb rec)) = false).
+    { destruct (i_v1 i); destruct Hv1 as (E1 & E2 & E3 & E4 & E5 & E6).
+      - assert (M : match_pb rec = true).
+        { unfold match_pb, get_bytes, get_int. rewrite Lv, Lvl, Lvt, Ls, Lt.
+          rewrite E1, E2, E3, E4, E5. cbn [oget ozget].
+          rewrite !bytes_eqb_refl. rewrite to_u64_to_i64 by exact Hseq.
+          rewrite (to_u64_nonneg _ Hmax). rewrite !Z.eqb_refl. reflexivity. }
+        rewrite M. apply andb_false_r.
+      - rewrite E1, E6. reflexivity. }
+    rewrite Hmatch.
+    unfold acc_validity, acc_validity_type, acc_ttl, get_bytes, get_int.
+    rewrite Lvt, Lvl, Lt. cbn [Z.eqb]. rewrite Htime.
+    assert (Hn : (i_eol i <? now) = false) by (apply Z.ltb_ge; exact Hnow). rewrite Hn.
+    assert (Ht : (Z.max 0 (i_ttl i) <? 0) = false) by (apply Z.ltb_ge; lia). rewrite Ht.
+    reflexivity.
+  Qed.
+
+  Notation key_recoverable := (M_C26.key_recoverable sk pk pub marshal_pk).
+
+  Lemma extract_created : forall s i rec,
+    new_record s i = NOk rec ->
+    extract_pk rec (pid_of (pub s)) =
+      if key_recoverable s i then Ok (pub s) else Err ENoPk.
+  Proof.
+    intros s i rec Hnew.
+    destruct (new_record_shape s i rec Hnew) as (ms & _ & _ & _ & _ & _ & Hpk & _).
+    unfold Ipns.extract_pk, M_C26.key_recoverable. rewrite Hpk.
+    set (emb := match i_embed i with Some b => b | None => need_embed pk marshal_pk (pub s) end).
+    unfold Ipns.pid_of.
+    destruct emb; cbn [orb].
+    - destruct (olen (Some (marshal_pk (pub s))) =? 0) eqn:E0.
+      + (* an empty marshalled key: treated as absent, but then it is inlined in the name *)
+        unfold olen, oget in E0. apply Z.eqb_eq in E0.
+        destruct (Z.leb_spec (blen (marshal_pk (pub s))) 42); [|lia].
+        rewrite pk_roundtrip. reflexivity.
+      + cbn [oget]. rewrite pk_roundtrip. rewrite name_eqb_refl. reflexivity.
+    - change (olen None =? 0) with true. cbn iota.
+      destruct (blen (marshal_pk (pub s)) <=? 42); [rewrite pk_roundtrip|]; reflexivity.
+  Qed.
+
+  (** C26_validates, part 2: against its name *)
+  Theorem validate_with_name_created : forall s i rec now,
+    inputs_ok i -> new_record s i = NOk rec ->
+    pb_size (r_pb rec) <= max_record_size -> now <= i_eol i ->
+    validate_with_name now rec (pid_of (pub s)) =
+      if key_recoverable s i then Ok tt else Err ENoPk.
+  Proof.
+    intros s i rec now Hok Hnew Hsize Hnow. unfold Ipns.validate_with_name.
+    rewrite (extract_created s i rec Hnew).
+    destruct (key_recoverable s i); [|reflexivity].
+    apply validate_created with (i := i); assumption.
+  Qed.
+
+  Theorem validator_validate_created : forall s i rec now,
+    inputs_ok i -> new_record s i = NOk rec ->
+    pb_size (r_pb rec) <= max_record_size -> now <= i_eol i ->
+    validator_validate now (pid_of (pub s)) (marshal (r_pb rec)) =
+      if key_recoverable s i then Ok tt else Err EPkNotFound.
+  Proof.
+    intros s i rec now Hok Hnew Hsize Hnow. unfold Ipns.validator_validate.
+    rewrite (unmarshal_created s i rec Hok Hnew Hsize).
+    rewrite (extract_created s i rec Hnew).
+    destruct (key_recoverable s i); [|reflexivity].
+    apply validate_created with (i := i); assumption.
+  Qed.
 End RoundTrip.
+
+(** C26_cbor_canonical: the node of a created record is strictly sorted by
+    (key length, key bytes) — the DAG-CBOR canonical map order — and the signed
+    Data is exactly its encoding, which decodes back to it. *)
+Theorem canonical_created :
+  forall (sk pk : Type) (pub : sk -> pk) (sign : sk -> bytes -> bytes) (marshal_pk : pk -> bytes)
+         (fmt_time : Z -> bytes) (parse_time : bytes -> option Z) s i rec,
+  M_C26.inputs_ok fmt_time parse_time i ->
+  new_record sk pk pub sign marshal_pk fmt_time s i = NOk rec ->
+  StronglySorted key_lt (r_node rec) /\
+  p_data (r_pb rec) = Some (enc_map (r_node rec)) /\
+  (blen (enc_map (r_node rec)) < two64 -> dec_map (enc_map (r_node rec)) = Some (r_node rec)).
+Proof.
+  intros sk pk pub sign marshal_pk fmt_time parse_time s i rec Hok Hnew.
+  destruct (new_record_shape sk pk pub sign marshal_pk fmt_time s i rec Hnew)
+    as (ms & Hms & Hnode & Hdata & _).
+  destruct (node_facts fmt_time parse_time i ms Hok Hms) as (Hnd & _).
+  split.
+  - rewrite Hnode. apply sorted_strict; [apply sort_sorted | exact Hnd].
+  - split; [exact Hdata|]. intros Hlen. rewrite Hnode in *.
+    destruct (node_wf fmt_time parse_time i ms Hok Hms Hlen) as [Hwf Hcnt].
+    apply dec_map_enc_map; assumption.
+Qed.
+
+
+Lemma seq_reinterpretation : forall u, 0 <= u < two64 ->
+  - two63 <= to_i64 u < two63 /\ to_u64 (to_i64 u) = u.
+Proof. intros u H. split; [apply to_i64_range | apply to_u64_to_i64; exact H]. Qed.
